@@ -436,6 +436,19 @@ class Exec:
             return Closure(m.group(1), [])
         if t.startswith('{') or t.startswith('ZeroSized') or t.startswith('<'):
             return Opaque('const', t)
+        m = re.fullmatch(r'(?:core|std)::num::<impl (\w+)>::(MAX|MIN|BITS)', t)
+        if m:
+            ty_ = m.group(1); w_ = INT_W[ty_]
+            if m.group(2) == 'BITS': return Int(w_, 'u32')
+            if ty_ in SIGNED: return Int((1 << (w_ - 1)) - 1 if m.group(2) == 'MAX' else -(1 << (w_ - 1)), ty_)
+            return Int((1 << w_) - 1 if m.group(2) == 'MAX' else 0, ty_)
+        m = re.fullmatch(r'(?:std|core)::net::(Ipv4Addr|Ipv6Addr)::(UNSPECIFIED|LOCALHOST|BROADCAST)', t)
+        if m:
+            if m.group(1) == 'Ipv4Addr':
+                o = {'UNSPECIFIED': (0, 0, 0, 0), 'LOCALHOST': (127, 0, 0, 1), 'BROADCAST': (255, 255, 255, 255)}[m.group(2)]
+                return Agg('Ipv4Addr', None, [Cell(Int(x, 'u8')) for x in o])
+            o = {'UNSPECIFIED': (0,) * 8, 'LOCALHOST': (0,) * 7 + (1,)}[m.group(2)]
+            return Agg('Ipv6Addr', None, [Cell(Int(x, 'u16')) for x in o])
         # named const / promoted
         if '::promoted[' in t or t.startswith('promoted['):
             idx = t[t.index('promoted['):]
